@@ -31,7 +31,7 @@ func (chunkfault) Rule() string {
 		"damaged by a stored-medium fault so that 'same final error' is exercised). Reader side, for each of three caller programs " +
 		"(full traversal, top-level skip, seeded navigation): every two-chunk split point, byte-at-a-time, seeded random and " +
 		"boundary-biased plans (with empty reads and EOF-with-data variants), then a read failure at every byte offset 0..len in four " +
-		"variants (sticky/transient x with/without data). Writer side, for each writer configuration (text, pretty, binary, binary " +
+		"variants (sticky/transient x with/without data x 3 error identities). Writer side, for each writer configuration (text, pretty, binary, binary " +
 		"with fixed table): a write failure at every Write call in four variants (sticky/transient x accept nothing/short prefix). " +
 		"Documents over 600 bytes / 600 write calls have offsets sampled instead of enumerated. A case is distinct by hash of " +
 		"(stored bytes, delivery plan, fault, program) resp. (configuration, call sequence, fault); non-trivial = the fault fired " +
@@ -41,7 +41,7 @@ func (chunkfault) Assumptions() []string {
 	return []string{
 		"Go runtime and bufio behave as documented",
 		"the reference outcome is ion-go's own traversal over whole delivery (self-referential by design: the property says 'the same as all at once')",
-		"transient read failure that loses no data and yields the full fault-free outcome is not counted as unreported (lenient reading, DESIGN C19.R2)",
+		"strict reading of R2 since fix: commits 6648177 and f2dfc50: every injected read failure that fired, one-time ones included, must end in a non-nil Err (the lenient reading of DESIGN C19.R2 for swallowed one-time failures was dropped once the two places where the unchanged tree swallowed them were repaired)",
 		"render byte maps are used only to aim boundary-biased plans, never to judge",
 	}
 }
@@ -305,11 +305,13 @@ func (s chunkfault) checkRead(c *Ctx, rc drive.ReadCase, oc *drive.Outcome, base
 		return // reported
 	}
 	// fault fired, no error
+	kind := map[bool]string{true: "sticky", false: "transient"}[f.Sticky]
 	if !f.Sticky && key == baseKey {
-		c.Count("r2.transient-swallowed-but-nothing-lost", 1)
+		// the failing Read was followed by successful ones and every value still came back: nothing was lost, but the
+		// failure was never reported
+		c.Report("C19", "C19.R2E", "C19.R2E/"+fm+"/"+rc.Prog.Kind+"/transient-swallowed", fmt.Sprintf("one-time read failure at byte %d fired, every later Read succeeded, and the traversal ended with Err()==nil: the failure was swallowed", f.At), cs)
 		return
 	}
-	kind := map[bool]string{true: "sticky", false: "transient"}[f.Sticky]
 	if key != baseKey {
 		c.Report("C19", "C19.R2N", "C19.R2N/"+fm+"/"+rc.Prog.Kind+"/"+kind, fmt.Sprintf("read failure at byte %d fired, Err()==nil and the trace differs from the fault-free one:\n %s", f.At, trunc(diffTail(key, baseKey), 300)), cs)
 		return
